@@ -66,6 +66,10 @@ pub struct SfCase {
     /// is in flight on the same thread
     #[serde(default)]
     pub reentrant_handler: bool,
+    /// the error handler reports with a quiet send on the SAME client (whose sink may refuse that
+    /// one too: the nested failure must reach the handler as well, once)
+    #[serde(default)]
+    pub nested_same_client: bool,
 }
 
 pub struct E1;
@@ -328,7 +332,7 @@ impl Engine for E1 {
     }
 
     fn required_probes(_focus: &str) -> &'static [&'static str] {
-        &["invalid_value_rejected", "sink_refused_try_send", "sink_refused_quiet", "handler_called", "ok_after_error", "all_entry_points", "boundary_value_accepted", "invalid_in_packed_list", "reentrant_handler_ran"]
+        &["invalid_value_rejected", "sink_refused_try_send", "sink_refused_quiet", "handler_called", "ok_after_error", "all_entry_points", "boundary_value_accepted", "invalid_in_packed_list", "reentrant_handler_ran", "nested_same_client_ran", "nested_failure_reported"]
     }
 
     fn generate(rng: &mut Rng, _focus: &str, tier: Tier) -> SfCase {
@@ -348,6 +352,7 @@ impl Engine for E1 {
         let default_container = if cfg.chance(1, 4) { Some("c0ntainer".to_string()) } else { None };
         let handler = cfg.chance(3, 4);
         let reentrant_handler = handler && cfg.chance(1, 3);
+        let nested_same_client = handler && cfg.chance(1, 4);
         let n = 1 + prog.usize_below(if tier == Tier::Thorough { 40 } else { 24 });
         let mut calls = Vec::new();
         for _ in 0..n {
@@ -385,7 +390,7 @@ impl Engine for E1 {
             });
         }
         let rate = *flt.pick(&[0u64, 10, 30, 60, 100]);
-        let plan = (0..n)
+        let plan = (0..2 * n + 2)
             .map(|_| {
                 if flt.chance(rate, 100) {
                     SinkAns::Err(IO_KINDS[flt.usize_below(IO_KINDS.len())].0.to_string())
@@ -398,7 +403,7 @@ impl Engine for E1 {
                 }
             })
             .collect();
-        SfCase { prefix, default_tags, default_container, handler, calls, plan, reentrant_handler }
+        SfCase { prefix, default_tags, default_container, handler, calls, plan, reentrant_handler, nested_same_client }
     }
 
     fn sweep(case: &SfCase, o: &Outcome) -> Vec<SfCase> {
@@ -446,6 +451,11 @@ impl Engine for E1 {
             c.reentrant_handler = false;
             v.push(c);
         }
+        if case.nested_same_client {
+            let mut c = case.clone();
+            c.nested_same_client = false;
+            v.push(c);
+        }
         if !case.default_tags.is_empty() {
             let mut c = case.clone();
             c.default_tags.clear();
@@ -491,8 +501,13 @@ fn run(case: &SfCase, out: &mut Outcome, want_trace: bool) {
     if let Some(c) = &case.default_container {
         b = b.with_container_id(c);
     }
+    let self_slot: Arc<Mutex<Option<Arc<StatsdClient>>>> = Arc::new(Mutex::new(None));
+    let depth = Arc::new(std::sync::atomic::AtomicU32::new(0));
     if case.handler {
         let l2 = logs.clone();
+        let slot2 = self_slot.clone();
+        let depth2 = depth.clone();
+        let nested = case.nested_same_client;
         let fallback: Option<Arc<StatsdClient>> = if case.reentrant_handler { Some(Arc::new(StatsdClient::from_sink("fallback", cadence::NopMetricSink))) } else { None };
         b = b.with_error_handler(move |e: MetricError| {
             let p = err_parts(&e);
@@ -501,9 +516,19 @@ fn run(case: &SfCase, out: &mut Outcome, want_trace: bool) {
                 f.count_with_tags("metrics.dropped", 1).with_tag("from", "handler").send();
                 f.gauge_with_tags("metrics.last_error", 1u64).send();
             }
+            if nested && depth2.load(std::sync::atomic::Ordering::SeqCst) == 0 {
+                depth2.store(1, std::sync::atomic::Ordering::SeqCst);
+                let me = slot2.lock().unwrap().clone();
+                if let Some(me) = me {
+                    me.count_with_tags("handler.nested", 7).with_tag("from", "handler").send();
+                }
+                depth2.store(0, std::sync::atomic::Ordering::SeqCst);
+            }
         });
     }
-    let client = b.build();
+    let client = Arc::new(b.build());
+    *self_slot.lock().unwrap() = Some(client.clone());
+    let client: &StatsdClient = &client;
     out.api_calls = case.calls.len() as u64;
     let mut h = Fnv::default();
     let mut entries_seen = std::collections::BTreeSet::new();
@@ -514,7 +539,8 @@ fn run(case: &SfCase, out: &mut Outcome, want_trace: bool) {
             let l = logs.lock().unwrap();
             (l.emits.len(), l.handler.len())
         };
-        let res = match catch_unwind(AssertUnwindSafe(|| do_call(&client, &key, c))) {
+        depth.store(0, std::sync::atomic::Ordering::SeqCst);
+        let res = match catch_unwind(AssertUnwindSafe(|| do_call(client, &key, c))) {
             Ok(r) => r,
             Err(p) => CallOut::Panicked(cadence_dsim::kernel::take_last_panic().unwrap_or_else(|| cadence_dsim::kernel::payload_to_string(&*p))),
         };
@@ -543,13 +569,17 @@ fn run(case: &SfCase, out: &mut Outcome, want_trace: bool) {
             out.violate(&["C03", "C20"], "client.call-panicked", format!("{what} panicked: {p}"));
             return;
         }
-        // (a) one emit iff valid
-        let want_emits = if valid { 1 } else { 0 };
+        // (a) one emit iff valid (plus the handler's own report in the nested configuration)
+        let will_fail = !valid || matches!(case.plan.get(e0), Some(SinkAns::Err(_)));
+        let nested_expected = case.nested_same_client && case.handler && c.form == 2 && will_fail;
+        let nested_idx = e0 + if valid { 1 } else { 0 };
+        let nested_refused = nested_expected && matches!(case.plan.get(nested_idx), Some(SinkAns::Err(_)));
+        let want_emits = if valid { 1 } else { 0 } + if nested_expected { 1 } else { 0 };
         if new_emits.len() != want_emits {
             out.violate(&["C03"], "client.emit-count", format!("{what} handed the sink {} strings, expected {want_emits}", new_emits.len()));
             return;
         }
-        let sink_ok = new_emits.first().map(|e| e.1);
+        let sink_ok = if valid { new_emits.first().map(|e| e.1) } else { None };
         let emit_idx = e0;
         if !valid {
             out.probe("invalid_value_rejected");
@@ -609,7 +639,13 @@ fn run(case: &SfCase, out: &mut Outcome, want_trace: bool) {
             (CallOut::Quiet, _) => {
                 // (e)
                 failed = !valid || sink_ok == Some(false);
-                let want = if failed && case.handler { 1 } else { 0 };
+                let want = if failed && case.handler { 1 + if nested_refused { 1 } else { 0 } } else { 0 };
+                if nested_expected {
+                    out.probe("nested_same_client_ran");
+                    if nested_refused {
+                        out.probe("nested_failure_reported");
+                    }
+                }
                 if new_handler.len() != want {
                     out.violate(&["C03"], "client.handler-count", format!("{what} (quiet send, {}) invoked the error handler {} times, expected {want}", if failed { "failed" } else { "succeeded" }, new_handler.len()));
                     return;
@@ -617,7 +653,20 @@ fn run(case: &SfCase, out: &mut Outcome, want_trace: bool) {
                 if failed && valid {
                     out.probe("sink_refused_quiet");
                 }
-                if want == 1 {
+                if want == 2 {
+                    // the nested failure carries the error of the nested emit
+                    let (kind, src, _) = &new_handler[1];
+                    let want_kind = match case.plan.get(nested_idx) {
+                        Some(SinkAns::Err(k)) => k.clone(),
+                        _ => String::new(),
+                    };
+                    let ok = kind == "IoError" && src.as_ref().map(|s| s.kind == want_kind && s.msg == format!("fault#{nested_idx}")).unwrap_or(false);
+                    if !ok {
+                        out.violate(&["C03"], "client.handler-wrong-error", format!("{what}: the quiet send made inside the handler was refused with {want_kind}:fault#{nested_idx} but the handler received kind={kind} source={src:?}"));
+                        return;
+                    }
+                }
+                if want >= 1 {
                     out.probe("handler_called");
                     if case.reentrant_handler {
                         out.probe("reentrant_handler_ran");
